@@ -59,6 +59,18 @@ CHECKS["C17"] = dict(
          "(the check then stops with a machinery failure, not an alarm).",
     design_ref="DESIGN.md section 5 C17")
 
+CHECKS["C19"] = dict(
+    technique="TLA+ refinement check by TLC: implementation-shaped Table.tla (_df + insert buffer + commit-on-read) against "
+              "the abstract table monitor TableAbs.tla; TLC-generated operation histories executed through the Klong surface; "
+              "recorded observations validated by TLC (TableTrace.tla)",
+    text="All operation histories up to the bound (insert, batch insert incl. two rows with one key, re-insert of an existing "
+         "key, column read, count, schema, index on one/two columns, drop index, add column, SQL) are model-checked for "
+         "'buffering is unobservable'; the same histories run on the real Table via Klong and every observation is judged by "
+         "TLC against the list-of-rows specification, in particular reads that are NOT preceded by #t.",
+    note="Trusted: TLC, the projection of results to cell texts (numeric kind ignored), pandas/duckdb. Bounds: 3 columns "
+         "(int, real, string), 3 initial rows, 4 single rows + 2 batches, histories <= 3 exhaustive / 7 sampled.",
+    design_ref="DESIGN.md section 5 C19")
+
 NOT_YET = {}
 
 
